@@ -176,6 +176,10 @@ static void DivOp(TempResult* pErg, TempResult* pLVal, TempResult* pRVal) {
     case TempInt:
         if (pRVal->Contents.Int == 0) {
             WrError(ErrNum_DivByZero);
+        } else if (pRVal->Contents.Int == -1) {
+            /* avoid the overflow trap of (most negative value) / -1: two's complement negation */
+
+            as_tempres_set_int(pErg, (LargeInt)(0 - (LargeWord)pLVal->Contents.Int));
         } else {
             as_tempres_set_int(pErg, pLVal->Contents.Int / pRVal->Contents.Int);
         }
@@ -195,6 +199,8 @@ static void DivOp(TempResult* pErg, TempResult* pLVal, TempResult* pRVal) {
 static void ModOp(TempResult* pErg, TempResult* pLVal, TempResult* pRVal) {
     if (pRVal->Contents.Int == 0) {
         WrError(ErrNum_DivByZero);
+    } else if (pRVal->Contents.Int == -1) {
+        as_tempres_set_int(pErg, 0);
     } else {
         as_tempres_set_int(pErg, pLVal->Contents.Int % pRVal->Contents.Int);
     }
